@@ -170,7 +170,7 @@ def cells(tier):
         pairs += [("app", "gapfill"), ("reset", "app"), ("testrequest", "app"), ("resendrequest", "app"), ("app", "resendrequest")]
     for a, bb in pairs:
         for sname, st in STATES.items():
-            d2 = 1 if (quick or "resendrequest" in (a, bb)) else 2  # (2-digit counters with a ResendRequest step did not exhaust in 40 min)
+            d2 = 1 if (quick or "resendrequest" in (a, bb) or a == "reset") else 2  # (2-digit counters with a ResendRequest or reset first step did not exhaust in 25-40 min)
             out.append(Cell(f"two/{sname}/{a}+{bb}", (lambda I, st=st, a=a, bb=bb, d2=d2: h_two(I, st, [a], [bb], d2)),
                             dict(b, state=sname, kinds=[a, bb], counters=f"symbolic in [1,10^{d2}-1]", msg_seq_num=f"symbolic in [1,10^{d2}+5]"),
                             goals=["step"], regions=reg, budget_s=2400))
